@@ -24,8 +24,8 @@ EVAL_KEY = "loads_judged"
 DISTINCT_KEY = "cases"
 NSHARDS = {"quick": 8, "thorough": 16}
 FLOORS = {"quick": {"loads_judged": 400, "open_event_checks": 200, "depth_boundary_cases": 50, "no_expand_cases": 80, "missing_file_cases": 25},
-          "thorough": {"loads_judged": 20000, "open_event_checks": 15000, "depth_boundary_cases": 2000, "no_expand_cases": 3000,
-                       "missing_file_cases": 1000}}
+          "thorough": {"loads_judged": 12000, "open_event_checks": 7000, "depth_boundary_cases": 2000, "no_expand_cases": 2500,
+                       "missing_file_cases": 700}}
 ASSUMPTIONS = ["flatten() substitutes over the generator's own tree (it never re-scans text)", "audit 'open' events are complete for builtins.open / io.open"]
 DOMAIN = ["file names without spaces or '#'; INCLUDE directives on their own line outside strings and comments; no multi-line strings in cut documents",
           "with expand_includes=False the directives sit inside blocks (a directive outside any block is not Mapfile data)"]
